@@ -56,6 +56,15 @@ Ltac v3_lin :=
 Ltac v3_nsatz :=
   v3_destruct;
   first [ ring | timeout 20 (solve [nsatz]) | apply v3_eq; v3_cbv; first [ ring | timeout 20 (solve [nsatz]) ] ].
+Ltac v3_goal := cbv [mixed vsub vneg dot cross vadd vscale vzero Vec3.vx Vec3.vy Vec3.vz].
+Ltac nz_hyp :=
+  first [ assumption
+        | let Hz := fresh "Hz" in intro Hz;
+          match goal with H : _ <> 0 |- _ => apply H; v3_goal; first [ assumption | timeout 20 (solve [nsatz]) ] end ].
+Ltac v3_field :=
+  repeat match goal with v : V3 |- _ => destruct v end; v3_goal;
+  first [ ring | field; repeat split; nz_hyp
+        | apply v3_eq; v3_goal; first [ ring | field; repeat split; nz_hyp ] ].
 Ltac tv_norms :=
   abs_consts; rewrite ?norm_sq;
   first [ v3_finish | norm_atoms; abs_atoms; v3_nsatz ].
@@ -212,12 +221,16 @@ def process(job):
     hyps = ""
     quotient = False
     has_norm = bool(vx.norm_args(spec)) or bool(c.norm_args) or bool(c.abs_args)
+    if job["mode"].startswith("diff") and c.den_args and not c.abs_args and not vx.norm_args(spec):
+        # quotients produced by SymPy's power rule; norms then occur only squared (norm v * norm v), rewritten to v.v
+        has_norm = False
     if job["mode"] in ("diff", "diff2"):
         nz = sorted({vx.coq_of_recipe(x) for x in vx.norm_args(recipe)})
         hyps = "".join(f"norm {x} <> 0 -> " for x in nz)
         quotient = bool(nz)
     dens = sorted({vx.coq_of_recipe(d) for d in sdiv_dens(spec)})
-    hyps += "".join(f"{d} <> 0 -> " for d in dens)
+    out_dens = sorted(set(c.den_args) - set(dens)) if job["mode"].startswith("diff") else []
+    hyps += "".join(f"{d} <> 0 -> " for d in dens + out_dens)
     res["statement"] = f"forall {vx.binder(atoms)}, {hyps}{in_coq} = {out_coq}"
     if has_norm:
         try:
@@ -226,6 +239,9 @@ def process(job):
             steps = [f"(* guidance failed: {type(e).__name__} *)"]
         res["proof"] = "intros.\n" + "\n".join(steps) + ("\n" if steps else "") + \
             ("try field_simplify_eq; try assumption.\n" if quotient else "") + "timeout 90 tv_norms."
+    elif out_dens:
+        # SymPy differentiates u**n to n*u**n*u'/u: the returned expression is only defined (and equal) where u <> 0
+        res["proof"] = "intros. rewrite ?norm_sq. timeout 90 v3_field."
     else:
         res["proof"] = "intros. timeout 60 v3_finish."
     res["has_norm"] = has_norm
